@@ -62,7 +62,7 @@ func (o Opts) Options(ctx context.Context, target string) []gtree.Option {
 	if o.NoIter {
 		opts = append(opts, gtree.WithNoUseIterOfSimpleOutput())
 	}
-	if target != "" {
+	if target != "" || o.PassEmptyTarget {
 		opts = append(opts, gtree.WithTargetDir(target))
 	}
 	return opts
@@ -116,7 +116,7 @@ func (env *Env) Run(c *Case) *Result {
 		switch c.Opts.TargetOpt {
 		case "slash":
 			targetOpt = target + "/"
-		case "rel", "default":
+		case "rel", "default", "raw":
 			cwd, err := os.Getwd()
 			if err != nil {
 				res.Infra = "getwd: " + err.Error()
@@ -138,6 +138,9 @@ func (env *Env) Run(c *Case) *Result {
 					return res
 				}
 				targetOpt = ""
+				if c.Opts.TargetOpt == "raw" {
+					targetOpt = c.Opts.TargetRaw
+				}
 			}
 		}
 		snapRoot := base
